@@ -19,9 +19,9 @@ from cherab.tools.spectroscopy import (Spectrometer, CzernyTurnerSpectrometer, P
 ID = "C16"
 SHARDS = {"quick": 8, "thorough": 16}
 
-# ---- known findings: ONE switch per class. While the entry is open the input class is excluded *in the generators*
-# (run()/the model only obey the flag stored in the case, so the committed probe replay keeps failing until /repo is
-# fixed). VERIF_C16_NO_EXCLUSIONS=1 switches the exclusion off (used to validate the proposed patch on a scratch copy).
+# ---- known findings: ONE switch per class. While an entry is open its input class is excluded *in the generators*
+# (run()/the model only obey the flags stored in the case, so the committed probe replays keep failing until /repo is
+# fixed). VERIF_C16_NO_EXCLUSIONS=1 switches the exclusions off (used to validate proposed patches on a scratch copy).
 _NOEXCL = os.environ.get("VERIF_C16_NO_EXCLUSIONS", "") == "1"
 F_CT = "C16-czerny-no-pipeline-classes"    # CzernyTurnerSpectrometer: pipeline_classes / create_pipelines() raise AttributeError
 F_ACC = "C16-acc-list-aliased"             # accommodated_spectra setter keeps the caller's (mutable) list
@@ -32,38 +32,52 @@ def _open(fid):
     return (not _NOEXCL) and is_open(fid)
 
 
-RULE = ("Hypothesis strategies. hist: a state machine (20-30 steps) over Spectrometer (1-3 pixel-edge arrays, 1-40 pixels, "
-        "uniform / uneven / one-narrow / binary-grid widths), CzernyTurnerSpectrometer (1-3 accommodated spectra, 1-40 and "
-        "survey-style up to 200 pixels) and Polychromator (1-4 TrapezoidalFilter / PolychromatorFilter objects); ops = every "
+RULE = ("Hypothesis strategies. hist: a state machine (20-30 steps) over Spectrometer (1-3 pixel-edge arrays, 1-40 pixels; "
+        "uniform / uneven / one-narrow / binary-grid / integer-grid / almost-even (polynomial calibration, relative spread "
+        "1e-9..1e-3) widths; arrays free, ascending, descending, nested, touching or duplicated, in any list order), "
+        "CzernyTurnerSpectrometer (1-3 accommodated spectra, 1-40 and survey-style up to 200 pixels, also nested / "
+        "descending / duplicated entries and the doc-string parameter set) and Polychromator (1-4 TrapezoidalFilter / "
+        "PolychromatorFilter objects, also a later filter enclosing all earlier ones, touching almost-even windows, the same "
+        "filter object twice). Arguments are handed over in every accepted form: arrays as list / tuple / float64 / float32 / "
+        "int64 ndarray / Python ints / strided and reversed views, outer container list or tuple, scalars as Python / numpy / "
+        "int-vs-float, accommodated_spectra as tuple / list / 2-D ndarray, positional or keyword, defaults omitted. Ops = every "
         "public setter (wavelength_to_pixel, min_bins_per_pixel, diffraction_order, grating, focal_length, pixel_spacing, "
-        "diffraction_angle, accommodated_spectra, filters, min_bins_per_window, name), rejected setter values, and reads of "
-        "an ordered subset of min/max_wavelength, spectral_bins, wavelengths, wavelength_to_pixel, pipeline_classes, "
-        "pipeline_kwargs, create_pipelines(), calibrate(); every read is compared with an instrument constructed directly "
-        "from the current parameters, either after every step or only where the history reads, and in full at the end. "
-        "ineq: directly constructed instruments of the three kinds, settings read in a random order. calib: 1-3 monotone "
-        "pixel-edge arrays (or a Czerny-Turner layout), source Spectrum with the instrument's own range/bins, a tight range "
-        "with 1-300 bins or a range with margins, samples random / seeded / spike, plus a constant and a linear spectrum on "
-        "the same binning and the layout with adjacent pixels merged. Non-trivial: hist - at least one setter applied after "
-        "the cached setting (spectral range/bins or pipeline kwargs) had been read on that instrument, and which changed "
-        "that setting; ineq - at least two pixels (filter windows) whose widths differ by > 1 %; calib - >= 2 source bins "
-        "and at least one pixel edge that is not on a source bin edge (farther than 1e-6 bin widths).")
+        "diffraction_angle, accommodated_spectra, filters, min_bins_per_window, name), rejected setter values, in-place "
+        "modification of the containers the caller handed in, and reads of an ordered subset of min/max_wavelength, "
+        "spectral_bins, wavelengths, wavelength_to_pixel, pipeline_classes, pipeline_kwargs, create_pipelines(), calibrate(), "
+        "resolution(); every read is compared with an instrument constructed directly (canonical float64 lists, positional) "
+        "from the current parameters, either after every step or only where the history reads, and in full at the end; "
+        "arrays returned earlier must stay intact, containers handed in must stay bit-identical. ineq: directly constructed "
+        "instruments of the three kinds in a drawn argument form, settings read in a random order, compared with the "
+        "canonical form; filters compared with canonically built ones. calib: 1-3 monotone pixel-edge arrays (or a "
+        "Czerny-Turner layout), source Spectrum with the instrument's own range/bins, a tight range with 1-300 bins, a range "
+        "with margins, bins on the pixel scale (0.2-3 pixel widths) or sample points centred on pixel edges; samples random / "
+        "seeded / spike / alternating; plus a constant and a linear spectrum on the same binning, the layout with adjacent "
+        "pixels merged, and the first call repeated at the end. Non-trivial: hist - at least one setter applied after the "
+        "cached setting (spectral range/bins, pipeline kwargs or pipeline classes) had been read on that instrument, and which "
+        "changed that setting; ineq - at least two pixels (filter windows) whose widths differ (by more than 1e-12 relative); "
+        "calib - >= 2 source bins and at least one pixel edge that is not on a source bin edge (farther than 1e-6 bin widths).")
 ASSUMPTIONS = [
     "raysect's Spectrum defines the spectrum: samples at the bin centres reported by Spectrum.wavelengths, linear "
     "interpolation between them, nearest-sample extrapolation in the outer half bins (raysect.core.math integrate docstring)",
-    "an instrument constructed directly with the current parameter values (the values handed to the setters, the same "
-    "filter objects) is the reference; both objects run the same arithmetic, so all comparisons are exact",
+    "an instrument constructed directly with the current parameter values (the values handed to the setters, as float64 "
+    "lists / Python scalars, the same filter objects) is the reference; both objects run the same arithmetic on the same "
+    "float64 values, so all comparisons are exact (numbers are compared by value, not by Python type)",
     "a setter call that raises is not a parameter change: afterwards the instrument must still equal a fresh one built "
     "from the unchanged parameters (if an invalid value is accepted nothing is claimed and the history stops comparing)",
-    "a filter's window is [filter.min_wavelength, filter.max_wavelength] as the filter reports it; for the polychromator "
-    "'narrowest pixel / min_bins_per_pixel' reads 'narrowest filter window / min_bins_per_window'",
+    "modifying, after the call, a list / array that was handed to a constructor or setter is not a parameter change either",
+    "a filter's window is the one it was specified with: [min, max] of the wavelength array, centre -+ window/2 for the "
+    "trapezoid (2 ulp allowed for the latter); for the polychromator 'narrowest pixel / min_bins_per_pixel' reads "
+    "'narrowest filter window / min_bins_per_window'",
     "only valid parameters are generated: Czerny-Turner sets obey 0.5*order*grating*lambda <= 0.85 cos^2(angle) over the "
     "whole layout (resolution() real and positive); candidate setter values violating it are skipped",
+    "float32 / integer argument forms are used only for values exactly representable in that type",
 ]
 _EPS = float(np.finfo(float).eps)
 _TINY = 5e-324         # spacing of subnormal numbers: absolute error of an operation whose result underflows
 TOLERANCES = {
     "hist": "exact equality (same arithmetic on the same parameters in both objects)",
-    "ineq.cover": "exact float comparisons (min/max of the very same floats)",
+    "ineq.cover": "exact float comparisons (min/max of the very same floats); trapezoid window edges 2 ulp",
     "ineq.binwidth": "(max-min)/bins <= narrowest/min_bins*(1+1e-12), the statement's bound; the code's ceil() argument "
                      "carries <= 3 roundings (6.7e-16 relative)",
     "calib.integral": "|value*width - exact integral| <= 4 eps (K+16) M width, K = source samples inside the pixel, M = "
@@ -74,12 +88,35 @@ TOLERANCES = {
     "calib.additive": "sum of the per-pixel tolerances of the pixels involved",
     "calib.const": "4 eps (K+16) c",
     "calib.linear": "4 eps (K+17) M (samples of the line are correctly rounded: + eps/2 M)",
+    "calib.reuse": "bit-identical",
 }
-REQUIRED_LABELS = ["hist:kind:spectrometer", "hist:kind:czerny", "hist:kind:poly", "hist:nt:spectral", "hist:nt:kwargs",
-                   "hist:rejected", "hist:mode:every_step", "hist:mode:sparse",
-                   "ineq:kind:spectrometer", "ineq:kind:czerny", "ineq:kind:poly",
-                   "calib:range:own", "calib:range:tight", "calib:range:margin", "calib:unaligned", "calib:aligned",
-                   "calib:spectra:1", "calib:spectra:2", "calib:spectra:3", "calib:layout:czerny"]
+SETTER_LABELS = ["spectrometer.wavelength_to_pixel", "spectrometer.min_bins_per_pixel", "spectrometer.name",
+                 "czerny.diffraction_order", "czerny.grating", "czerny.focal_length", "czerny.pixel_spacing",
+                 "czerny.diffraction_angle", "czerny.accommodated_spectra", "czerny.min_bins_per_pixel", "czerny.name",
+                 "poly.filters", "poly.min_bins_per_window", "poly.name"]
+READS_ALL = ["min_wavelength", "max_wavelength", "spectral_bins", "pipeline_kwargs", "pipeline_classes",
+             "create_pipelines", "wavelengths", "wavelength_to_pixel", "calibrate", "resolution", "params"]
+# public entry points of the anchored files and the label that proves each was exercised:
+#   SpectroscopicInstrument.{name, pipeline_classes, pipeline_kwargs, create_pipelines, min/max_wavelength, spectral_bins} -> hist:read:*
+#   Spectrometer.{wavelength_to_pixel, wavelengths, min_bins_per_pixel, calibrate}, CzernyTurnerSpectrometer.{6 parameters,
+#   wavelength_to_pixel, resolution} -> hist:set:* / hist:read:*;  Polychromator.{filters, min_bins_per_window} -> hist:set:poly.*
+#   PolychromatorFilter.{name, min/max_wavelength, window, central_wavelength, __call__}, TrapezoidalFilter.flat_top -> ineq:filter:*
+REQUIRED_LABELS = (["hist:kind:spectrometer", "hist:kind:czerny", "hist:kind:poly", "hist:nt:spectral", "hist:nt:kwargs",
+                    "hist:nt:classes", "hist:rejected", "hist:mode:every_step", "hist:mode:sparse",
+                    "hist:owned:intact", "hist:owned:mutated:w2p", "hist:kept:intact",
+                    "ineq:kind:spectrometer", "ineq:kind:czerny", "ineq:kind:poly",
+                    "ineq:arr:nested", "ineq:arr:descending", "ineq:arr:duplicate", "ineq:arr:touching", "ineq:arr:enclosing-later",
+                    "ineq:widths:almost", "ineq:widths:uneven", "ineq:filter:trap", "ineq:filter:gen", "ineq:filter:same",
+                    "ineq:filter:trap-defaults", "ineq:preset:docs",
+                    "calib:range:own", "calib:range:tight", "calib:range:margin", "calib:range:pixscale", "calib:range:centred",
+                    "calib:unaligned", "calib:aligned", "calib:knot-on-edge", "calib:widths:almost",
+                    "calib:spectra:1", "calib:spectra:2", "calib:spectra:3", "calib:layout:czerny",
+                    "calib:samples:list", "calib:samples:rng", "calib:samples:spike", "calib:samples:alt"]
+                   + ["hist:set:" + x for x in SETTER_LABELS] + ["hist:read:" + x for x in READS_ALL]
+                   + ["%s:form:%s" % (sub, f) for sub in ("hist", "ineq")
+                      for f in ("arr:list", "arr:tuple", "arr:f64", "arr:f32", "arr:i64", "arr:pyint", "arr:strided", "arr:rev",
+                                "outer:list", "outer:tuple", "sc:py", "sc:np", "sc:alt", "kw", "positional", "omit",
+                                "acc:tuple", "acc:list", "acc:nd", "acc:alt", "filters:list", "filters:tuple")])
 
 
 # ------------------------------------------------------------------------------------------------ strategies
@@ -87,18 +124,29 @@ def _logu(a, b):
     return st.floats(math.log(a), math.log(b)).map(math.exp)
 
 
-_strnames = st.one_of(st.text(alphabet="ab XY:_é", max_size=6), st.sampled_from(["", "spec", "MySpectrometer"]))
+_strnames = st.one_of(st.text(alphabet="ab XY:_é", max_size=6), st.sampled_from(["", "", "spec", "MySpectrometer"]))
 _names = st.one_of(_strnames, st.integers(0, 99))
+_mbpp = st.one_of(st.just(1), st.integers(1, 8))
+_mbw = st.one_of(st.just(10), st.integers(1, 30))
 
 
 @st.composite
 def edges_one(draw, max_pix=40):
-    cls = draw(st.sampled_from(["uniform", "uneven", "uneven", "onenarrow", "grid"]))
-    n = draw(st.one_of(st.integers(1, 4), st.integers(1, max_pix)))
+    cls = draw(st.sampled_from(["uniform", "uneven", "uneven", "onenarrow", "grid", "intgrid", "almost", "almost"]))
+    n = draw(st.one_of(st.integers(1, 4), st.integers(1, max_pix), st.sampled_from([1, 2, max_pix])))
     if cls == "grid":                       # binary-exact edges: pixels coincide with the instrument's own bins
         lo = float(draw(st.integers(200, 1000)))
         widths = [0.25 * draw(st.integers(1, 8)) for _ in range(n)] if draw(st.booleans()) else \
             [0.25 * draw(st.integers(1, 8))] * n
+    elif cls == "intgrid":
+        lo = float(draw(st.integers(200, 1000)))
+        widths = [float(draw(st.integers(1, 3))) for _ in range(n)] if draw(st.booleans()) else [1.0] * n
+    elif cls == "almost":                   # polynomial calibration with a tiny quadratic term
+        lo = draw(st.floats(200.0, 1000.0))
+        n = max(n, 2)
+        w0 = draw(_logu(0.01, 3.0))
+        q = draw(st.sampled_from([-1.0, 1.0])) * draw(_logu(1e-9, 1e-3)) * w0 / (2.0 * n)
+        return [lo + w0 * i + q * i * i for i in range(n + 1)]
     else:
         lo = draw(st.floats(200.0, 1000.0))
         if cls == "uniform":
@@ -115,8 +163,66 @@ def edges_one(draw, max_pix=40):
     return e
 
 
-def layout(max_pix=40):
-    return st.lists(edges_one(max_pix), min_size=1, max_size=3)
+def _shift(e, d):
+    return [x + d for x in e]
+
+
+@st.composite
+def layout(draw, max_pix=40):
+    arrs = draw(st.lists(edges_one(max_pix), min_size=1, max_size=3))
+    if len(arrs) == 1:
+        return arrs
+    how = draw(st.sampled_from(["free", "free", "nested", "nested", "descending", "ascending", "touching", "duplicate"]))
+    if how == "duplicate":
+        arrs[1] = list(arrs[0])
+    elif how == "touching":
+        arrs[1] = _shift(arrs[1], arrs[0][-1] - arrs[1][0])
+        arrs[1][0] = arrs[0][-1]
+    elif how == "nested":
+        k = max(range(len(arrs)), key=lambda i: arrs[i][-1] - arrs[i][0])
+        for j in range(len(arrs)):
+            room = (arrs[k][-1] - arrs[k][0]) - (arrs[j][-1] - arrs[j][0])
+            if j != k and room > 0:
+                arrs[j] = _shift(arrs[j], arrs[k][0] + draw(st.floats(0.0, 1.0)) * room - arrs[j][0])
+    elif how in ("ascending", "descending"):
+        pos = draw(st.floats(200.0, 600.0))
+        out = []
+        for e in arrs:
+            out.append(_shift(e, pos - e[0]))
+            pos = out[-1][-1] + draw(_logu(0.01, 50.0))
+        arrs = out[::-1] if how == "descending" else out
+    if how in ("nested", "touching", "duplicate", "free"):
+        arrs = [arrs[i] for i in draw(st.permutations(list(range(len(arrs)))))]
+    for e in arrs:      # shifting can merge two neighbouring edges only if a width is below 1 ulp: never here, but keep run() safe
+        if any(b <= a for a, b in zip(e[:-1], e[1:])):
+            return [[400.0, 401.0, 402.5]]
+    return arrs
+
+
+def _f32ok(v):
+    return all(float(np.float32(x)) == x for x in v)
+
+
+def _intok(v):
+    return all(float(x).is_integer() for x in v)
+
+
+def array_forms(values):
+    f = ["list", "tuple", "f64", "strided", "rev"]
+    if _f32ok(values):
+        f += ["f32", "f32"]
+    if _intok(values):
+        f += ["i64", "pyint", "i64", "pyint"]
+    return f
+
+
+@st.composite
+def w2p_forms(draw, w2p):
+    return {"arr": [draw(st.sampled_from(array_forms(e))) for e in w2p], "outer": draw(st.sampled_from(["tuple", "list"]))}
+
+
+_call_form = st.fixed_dictionaries({"sc": st.sampled_from(["py", "np", "alt"]), "kw": st.booleans(), "omit": st.booleans()})
+_acc_form = st.sampled_from(["tuple", "list", "nd", "alt"])
 
 
 def ct_resolution(p, wl):
@@ -143,31 +249,49 @@ def ct_valid(p):
 
 
 _ct_order = st.sampled_from([1, 1, 2, 3])
-_ct_angle = st.floats(1.0, 30.0)
+_ct_angle = st.one_of(st.floats(1.0, 30.0), st.sampled_from([10.0, 1.0, 30.0]))
 
 
 def _ct_grating():
-    return _logu(1e-4, 2e-3)
+    return st.one_of(_logu(1e-4, 2e-3), st.sampled_from([2e-3, 1e-3]))
 
 
 def _ct_focal():
-    return _logu(0.3e9, 1.5e9)
+    return st.one_of(_logu(0.3e9, 1.5e9), st.sampled_from([1e9, 5e8]))
 
 
 def _ct_spacing():
-    return _logu(0.5e4, 3e4)
+    return st.one_of(_logu(0.5e4, 3e4), st.sampled_from([2e4, 1e4]))
 
 
-def _ct_acc():
-    pix = st.one_of(st.integers(1, 8), st.integers(1, 40), st.integers(1, 40), st.integers(41, 200))
-    return st.lists(st.tuples(st.floats(300.0, 700.0), pix).map(list), min_size=1, max_size=3)
+@st.composite
+def _ct_acc(draw):
+    pix = st.one_of(st.integers(1, 8), st.integers(1, 40), st.integers(1, 40), st.integers(41, 200), st.sampled_from([1, 2]))
+    lam = st.one_of(st.floats(300.0, 700.0), st.integers(300, 700).map(float))
+    acc = draw(st.lists(st.tuples(lam, pix).map(list), min_size=1, max_size=3))
+    if len(acc) > 1:
+        how = draw(st.sampled_from(["free", "free", "nested", "nested", "descending", "duplicate"]))
+        if how == "duplicate":
+            acc[1] = list(acc[0])
+        elif how == "descending":
+            acc.sort(key=lambda x: -x[0])
+        elif how == "nested":     # pixel widths are ~1e-3..1 nm: a start a fraction of a pixel later + a quarter of the pixels
+            k = max(range(len(acc)), key=lambda i: acc[i][1])
+            for j in range(len(acc)):
+                if j != k and acc[k][1] >= 4:
+                    acc[j] = [acc[k][0] + draw(_logu(1e-4, 1e-2)), max(1, acc[k][1] // 4)]
+            acc = [acc[i] for i in draw(st.permutations(list(range(len(acc)))))]
+    return acc
 
 
 @st.composite
 def czerny_params(draw, small=False):
+    if draw(st.integers(0, 11)) == 0:           # the parameter set of the class doc-string / unit tests
+        return {"order": 1, "grating": 2e-3, "focal_length": 1e9, "pixel_spacing": 2e4, "angle": 10.0,
+                "acc": [[400.0, 40 if small else 64], [500.0, 32]], "mbpp": draw(_mbpp), "name": draw(_names), "preset": "docs"}
     p = {"order": draw(_ct_order), "grating": draw(_ct_grating()), "focal_length": draw(_ct_focal()),
          "pixel_spacing": draw(_ct_spacing()), "angle": draw(_ct_angle), "acc": draw(_ct_acc()),
-         "mbpp": draw(st.integers(1, 8)), "name": draw(_names)}
+         "mbpp": draw(_mbpp), "name": draw(_names)}
     if small:
         p["acc"] = [[l0, min(n, 40)] for l0, n in p["acc"]]
     if not ct_valid(p):                          # by construction: order 1 and grating <= 1e-3 is always valid here
@@ -179,50 +303,179 @@ def czerny_params(draw, small=False):
 
 @st.composite
 def filter_spec(draw):
+    form = {"kw": draw(st.booleans()), "omit": draw(st.booleans()), "arr": "list"}
     if draw(st.booleans()):
-        w = draw(_logu(0.2, 20.0))
-        ft = draw(st.one_of(st.none(), st.floats(0.05, 1.0)))
-        return {"t": "trap", "c": draw(st.floats(300.0, 900.0)), "w": w, "ft": None if ft is None else ft * w,
-                "name": draw(_strnames)}
+        w = draw(st.one_of(_logu(0.2, 20.0), st.just(3.0)))
+        ft = draw(st.one_of(st.none(), st.floats(0.05, 1.0), st.just(1.0)))
+        c = draw(st.one_of(st.floats(300.0, 900.0), st.integers(300, 900).map(float)))
+        return {"t": "trap", "c": c, "w": w, "ft": None if ft is None else ft * w, "name": draw(_strnames), "form": form}
     n = draw(st.integers(2, 6))
-    wl = [draw(st.floats(300.0, 900.0))]
+    wl = [draw(st.one_of(st.floats(300.0, 900.0), st.integers(300, 900).map(float)))]
     for _ in range(n - 1):
-        wl.append(wl[-1] + draw(_logu(0.05, 5.0)))
+        wl.append(wl[-1] + draw(st.one_of(_logu(0.05, 5.0), st.sampled_from([1.0, 2.0]))))
     s = [draw(st.sampled_from([0.0, 1.0, 0.5]) | st.floats(0.0, 1.0)) for _ in range(n)]
     s[draw(st.integers(0, n - 1))] = draw(st.floats(0.05, 1.0))          # never identically zero
     perm = draw(st.permutations(list(range(n))))
+    form["arr"] = draw(st.sampled_from(array_forms(wl)))
     return {"t": "gen", "wl": [wl[i] for i in perm], "s": [s[i] for i in perm], "norm": draw(st.booleans()),
-            "name": draw(_strnames)}
+            "name": draw(_strnames), "form": form}
 
 
-def _filters():
-    return st.lists(filter_spec(), min_size=1, max_size=4)
+def spec_window(s, specs):
+    """[lo, hi] the filter was specified with."""
+    if s["t"] == "same":
+        return spec_window(specs[s["i"]], specs)
+    if s["t"] == "trap":
+        return s["c"] - 0.5 * s["w"], s["c"] + 0.5 * s["w"]
+    return min(s["wl"]), max(s["wl"])
+
+
+@st.composite
+def _filters(draw):
+    how = draw(st.sampled_from(["free", "free", "free", "enclosing", "enclosing", "tiling", "same"]))
+    if how == "tiling":                      # touching trapezoids with almost equal windows
+        n = draw(st.integers(2, 4))
+        w = draw(_logu(0.2, 10.0))
+        pos = draw(st.floats(300.0, 800.0))
+        specs = []
+        for _ in range(n):
+            wi = w * (1.0 + draw(st.sampled_from([0.0, 1.0])) * draw(_logu(1e-9, 1e-3)))
+            specs.append({"t": "trap", "c": pos + 0.5 * wi, "w": wi, "ft": None, "name": draw(_strnames),
+                          "form": {"kw": False, "omit": False, "arr": "list"}})
+            pos = pos + wi
+        return [specs[i] for i in draw(st.permutations(list(range(n))))]
+    specs = draw(st.lists(filter_spec(), min_size=1, max_size=4 if how == "free" else 3))
+    if how == "same":
+        specs.insert(draw(st.integers(1, len(specs))), {"t": "same", "i": 0})
+    elif how == "enclosing":                 # a LATER filter extends the accumulated range on both sides
+        lo = min(spec_window(s, specs)[0] for s in specs)
+        hi = max(spec_window(s, specs)[1] for s in specs)
+        a, b = draw(_logu(1e-3, 30.0)), draw(_logu(1e-3, 30.0))
+        form = {"kw": draw(st.booleans()), "omit": draw(st.booleans()), "arr": "list"}
+        if draw(st.booleans()):
+            enc = {"t": "gen", "wl": [lo - a, 0.5 * (lo + hi), hi + b], "s": [draw(st.sampled_from([0.0, 0.3])), 1.0, 0.0],
+                   "norm": False, "name": draw(_strnames), "form": form}
+        else:
+            enc = {"t": "trap", "c": 0.5 * (lo + hi), "w": (hi - lo) + 2.0 * max(a, b), "ft": None, "name": draw(_strnames), "form": form}
+        specs.insert(draw(st.integers(1, len(specs))), enc)
+    return specs
 
 
 @st.composite
 def instrument_params(draw, kind=None):
     kind = kind or draw(st.sampled_from(["spectrometer", "czerny", "poly", "poly"]))
+    fm = draw(_call_form)
     if kind == "spectrometer":
-        p = {"w2p": draw(layout()), "mbpp": draw(st.integers(1, 8)), "name": draw(_names)}
+        p = {"w2p": draw(layout()), "mbpp": draw(_mbpp), "name": draw(_names)}
+        fm.update(draw(w2p_forms(p["w2p"])))
     elif kind == "czerny":
         p = draw(czerny_params())
+        fm["acc"] = draw(_acc_form)
     else:
-        p = {"filters": draw(_filters()), "mbw": draw(st.integers(1, 30)), "name": draw(_names)}
-    return {"kind": kind, "p": p, "pipes": not (kind == "czerny" and _open(F_CT))}
+        p = {"filters": draw(_filters()), "mbw": draw(_mbw), "name": draw(_names)}
+        fm["filters"] = draw(st.sampled_from(["list", "tuple"]))
+    return {"kind": kind, "p": p, "fm": fm, "pipes": not (kind == "czerny" and _open(F_CT))}
 
 
 # ------------------------------------------------------------------------------------------------ builders / observation
-def build_filter(s):
+def formed_array(values, f):
+    values = [float(v) for v in values]
+    if f == "tuple":
+        return tuple(values)
+    if f == "f64":
+        return np.array(values, dtype=np.float64)
+    if f == "f32":
+        return np.array(values, dtype=np.float32)
+    if f == "i64":
+        return np.array([int(v) for v in values], dtype=np.int64)
+    if f == "pyint":
+        return [int(v) for v in values]
+    if f == "strided":
+        big = np.full(2 * len(values), -7.0)
+        big[::2] = values
+        return big[::2]
+    if f == "rev":
+        return np.array(values[::-1], dtype=np.float64)[::-1]
+    return list(values)
+
+
+def sc_int(v, mode):
+    return np.int64(v) if mode == "np" else float(v) if mode == "alt" else int(v)
+
+
+def sc_float(v, mode):
+    if mode == "np":
+        return np.float64(v)
+    if mode == "alt" and float(v).is_integer():
+        return int(v)
+    return v
+
+
+def _is_default(v, d):
+    if d is None or v is None:
+        return v is None and d is None
+    if isinstance(d, str) or isinstance(v, str):
+        return isinstance(v, str) and isinstance(d, str) and v == d
+    return bool(v == d)
+
+
+def _call(cls, order, args, defaults, fm):
+    """cls(...) positional or by keyword; with fm['omit'] arguments equal to the documented defaults are left out."""
+    keys = list(order)
+    if fm.get("omit"):
+        if fm.get("kw"):
+            keys = [k for k in keys if not (k in defaults and _is_default(args[k], defaults[k]))]
+        else:
+            while keys and keys[-1] in defaults and _is_default(args[keys[-1]], defaults[keys[-1]]):
+                keys.pop()
+    if fm.get("kw"):
+        return cls(**{k: args[k] for k in keys})
+    return cls(*[args[k] for k in keys])
+
+
+def build_filter(s, built=None, canonical=False):
+    if s["t"] == "same":
+        return built[s["i"]]
+    fm = {} if canonical else s.get("form", {})
     if s["t"] == "trap":
-        return TrapezoidalFilter(s["c"], s["w"], s["ft"], s["name"])
-    return PolychromatorFilter(list(s["wl"]), list(s["s"]), normalise=bool(s["norm"]), name=s["name"])
+        args = {"central_wavelength": s["c"], "window": s["w"], "flat_top": s["ft"], "name": s["name"]}
+        return _call(TrapezoidalFilter, ["central_wavelength", "window", "flat_top", "name"], args,
+                     {"window": 3.0, "flat_top": None, "name": ""}, fm)
+    a = fm.get("arr", "list")
+    args = {"wavelengths": formed_array(s["wl"], a), "samples": formed_array(s["s"], "f64" if a in ("f64", "strided", "rev") else "list"),
+            "normalise": bool(s["norm"]), "name": s["name"]}
+    return _call(PolychromatorFilter, ["wavelengths", "samples", "normalise", "name"], args, {"normalise": False, "name": ""}, fm)
+
+
+def build_filters(specs, canonical=False):
+    out = []
+    for s in specs:
+        out.append(build_filter(s, out, canonical))
+    return out
 
 
 def _acc(acc):
     return tuple((float(a), int(b)) for a, b in acc)
 
 
+def formed_acc(acc, f):
+    if f == "list":
+        return [[float(a), int(b)] for a, b in acc]
+    if f == "nd":
+        return np.array([[float(a), float(b)] for a, b in acc], dtype=np.float64)
+    if f == "alt":
+        return [[int(a) if float(a).is_integer() else float(a), float(b)] for a, b in acc]
+    return _acc(acc)
+
+
+def formed_w2p(w2p, fm):
+    forms = fm.get("arr") or ["list"] * len(w2p)
+    arrs = [formed_array(e, forms[i] if i < len(forms) else "list") for i, e in enumerate(w2p)]
+    return tuple(arrs) if fm.get("outer", "tuple") == "tuple" else list(arrs)
+
+
 def build(kind, p, filters=None):
+    """canonical form: float64 lists, Python scalars, positional"""
     if kind == "spectrometer":
         return Spectrometer(tuple(list(e) for e in p["w2p"]), p["mbpp"], p["name"])
     if kind == "czerny":
@@ -231,9 +484,64 @@ def build(kind, p, filters=None):
     return Polychromator(list(filters), p["mbw"], p["name"])
 
 
+def build_formed(kind, p, fm, filters=None):
+    """(instrument, {parameter: the container object handed over}) in the argument form fm"""
+    fm = fm or {}
+    sc = fm.get("sc", "py")
+    if kind == "spectrometer":
+        w = formed_w2p(p["w2p"], fm)
+        args = {"wavelength_to_pixel": w, "min_bins_per_pixel": sc_int(p["mbpp"], sc), "name": p["name"]}
+        return _call(Spectrometer, ["wavelength_to_pixel", "min_bins_per_pixel", "name"], args,
+                     {"min_bins_per_pixel": 1, "name": ""}, fm), {"w2p": w}
+    if kind == "czerny":
+        a = formed_acc(p["acc"], fm.get("acc", "tuple"))
+        args = {"diffraction_order": sc_int(p["order"], sc), "grating": sc_float(p["grating"], sc),
+                "focal_length": sc_float(p["focal_length"], sc), "pixel_spacing": sc_float(p["pixel_spacing"], sc),
+                "diffraction_angle": sc_float(p["angle"], sc), "accommodated_spectra": a,
+                "min_bins_per_pixel": sc_int(p["mbpp"], sc), "name": p["name"]}
+        return _call(CzernyTurnerSpectrometer, ["diffraction_order", "grating", "focal_length", "pixel_spacing", "diffraction_angle",
+                                                "accommodated_spectra", "min_bins_per_pixel", "name"], args,
+                     {"min_bins_per_pixel": 1, "name": ""}, fm), {"acc": a}
+    f = list(filters) if fm.get("filters", "list") == "list" else tuple(filters)
+    args = {"filters": f, "min_bins_per_window": sc_int(p["mbw"], sc), "name": p["name"]}
+    return _call(Polychromator, ["filters", "min_bins_per_window", "name"], args, {"min_bins_per_window": 10, "name": ""}, fm), {"filters": f}
+
+
+def form_labels(kind, fm):
+    fm = fm or {}
+    out = ["form:sc:" + fm.get("sc", "py"), "form:kw" if fm.get("kw") else "form:positional"]
+    if fm.get("omit"):
+        out.append("form:omit")
+    if kind == "spectrometer":
+        out += ["form:arr:" + f for f in fm.get("arr", [])] + ["form:outer:" + fm.get("outer", "tuple")]
+    elif kind == "czerny":
+        out.append("form:acc:" + fm.get("acc", "tuple"))
+    else:
+        out.append("form:filters:" + fm.get("filters", "list"))
+    return out
+
+
+def owned_intact(ctx, owned, p, filters, what):
+    """the containers handed to the constructor / setter are bit-identical afterwards"""
+    if "w2p" in owned:
+        w = owned["w2p"]
+        ctx.check(len(w) == len(p["w2p"]), what, "the caller's sequence of arrays changed its length")
+        for a, e in zip(w, p["w2p"]):
+            if isinstance(a, np.ndarray):
+                ctx.check(a.flags.writeable, what, "the caller's array was made read-only")
+                a = a.tolist()
+            ctx.check(len(a) == len(e) and all(float(x) == float(y) for x, y in zip(a, e)), what,
+                      lambda: "the caller's array was modified: %s, handed in %s" % (_show(list(a)), _show(e)))
+    if "acc" in owned:
+        a = [[float(x), int(y)] for x, y in owned["acc"]]
+        ctx.check(a == [[float(x), int(y)] for x, y in p["acc"]], what,
+                  lambda: "the caller's accommodated_spectra was modified: %s, handed in %s" % (_show(a), _show(p["acc"])))
+    if "filters" in owned:
+        ctx.check(len(owned["filters"]) == len(filters) and all(x is y for x, y in zip(owned["filters"], filters)), what,
+                  "the caller's filter sequence was modified")
+
+
 SPECTRAL = ("min_wavelength", "max_wavelength", "spectral_bins")
-READS_ALL = ["min_wavelength", "max_wavelength", "spectral_bins", "pipeline_kwargs", "pipeline_classes",
-             "create_pipelines", "wavelengths", "wavelength_to_pixel", "calibrate", "params"]
 GETTERS = {"spectrometer": ["min_bins_per_pixel", "name"],
            "czerny": ["min_bins_per_pixel", "name", "diffraction_order", "grating", "focal_length", "pixel_spacing",
                       "diffraction_angle"],
@@ -243,6 +551,8 @@ GETTERS = {"spectrometer": ["min_bins_per_pixel", "name"],
 def applicable(kind, pipes, what):
     if what in ("wavelengths", "wavelength_to_pixel", "calibrate"):
         return kind != "poly"
+    if what == "resolution":
+        return kind == "czerny"
     if what in ("pipeline_classes", "create_pipelines"):
         return pipes
     return True
@@ -263,12 +573,20 @@ def read_one(inst, kind, what, aux):
         return [np.array(a, dtype=float) for a in getattr(inst, what)]
     if what == "calibrate":
         return [np.array(a, dtype=float) for a in inst.calibrate(aux)]
+    if what == "resolution":                 # at wavelengths of the layout itself (inside the valid domain)
+        starts = [float(e[0]) for e in inst.wavelength_to_pixel]
+        return [float(inst.resolution(starts[0])), float(inst.resolution(np.float64(starts[-1]))),
+                np.array(inst.resolution(np.array(starts)), dtype=float)]
     out = [getattr(inst, g) for g in GETTERS[kind]]
     if kind == "czerny":
         out.append([[float(a), int(b)] for a, b in inst.accommodated_spectra])
     if kind == "poly":
         out.append([id(f) for f in inst.filters])
     return out
+
+
+def _num(x):
+    return isinstance(x, (int, float, np.integer, np.floating)) and not isinstance(x, (bool, np.bool_))
 
 
 def same(a, b):
@@ -279,8 +597,8 @@ def same(a, b):
         return a.shape == b.shape and bool(np.array_equal(a, b))
     if isinstance(a, dict) and isinstance(b, dict):
         return sorted(a) == sorted(b) and all(same(a[k], b[k]) for k in a)
-    if isinstance(a, float) and isinstance(b, float):
-        return a == b
+    if _num(a) and _num(b):
+        return bool(a == b)
     return type(a) == type(b) and (a is b or a == b)
 
 
@@ -297,41 +615,83 @@ def calib_spectrum(fresh, seed):
     return sp
 
 
-def widths_of(inst, kind, filters):
-    """list of (lo, hi) of every pixel (spectrometers) or filter window (polychromator)."""
+def cells_of(inst, kind, p):
+    """list of (lo, hi) of every pixel (spectrometers: reported and handed in) or specified filter window (polychromator)."""
     if kind == "poly":
-        return [(float(f.min_wavelength), float(f.max_wavelength)) for f in filters]
+        return [tuple(float(x) for x in spec_window(s, p["filters"])) for s in p["filters"]]
     out = []
     for e in inst.wavelength_to_pixel:
         e = np.asarray(e, dtype=float)
         out.extend(zip(e[:-1].tolist(), e[1:].tolist()))
+    if kind == "spectrometer":      # the arrays handed in, not only the ones the instrument reports
+        out += [(float(a), float(b)) for e in p["w2p"] for a, b in zip(e[:-1], e[1:])]
     return out
 
 
 def check_ineq(ctx, inst, kind, p, filters, what):
     with ctx.cut(what + ":read"):
         mn, mx, bins = float(inst.min_wavelength), float(inst.max_wavelength), inst.spectral_bins
-        cells = widths_of(inst, kind, filters)
-    if kind == "spectrometer":      # the arrays handed in, not only the ones the instrument reports
-        cells = cells + [(float(a), float(b)) for e in p["w2p"] for a, b in zip(e[:-1], e[1:])]
+        cells = cells_of(inst, kind, p)
     nb = p["mbw"] if kind == "poly" else p["mbpp"]
     ctx.check(isinstance(bins, (int, np.integer)) and bins >= 1, what + ":bins", "spectral_bins = %r" % (bins,))
     ctx.check(math.isfinite(mn) and math.isfinite(mx) and 0 < mn < mx, what + ":range", "spectral range (%r, %r)" % (mn, mx))
+    slack = 0.0
+    if kind == "poly":              # trapezoid edges c -+ w/2 are recomputed by the filter: 2 ulp
+        slack = 2.0 * float(np.spacing(mx))
+        cells = cells + [(float(f.min_wavelength), float(f.max_wavelength)) for f in filters]
     for lo, hi in cells:
-        ctx.check(mn <= lo and hi <= mx, what + ":cover",
+        ctx.check(mn <= lo + slack and hi - slack <= mx, what + ":cover",
                   lambda: "spectral range [%r, %r] does not cover the %s [%r, %r]"
                   % (mn, mx, "filter window" if kind == "poly" else "pixel", lo, hi))
     narrow = min(hi - lo for lo, hi in cells)
     step = (mx - mn) / int(bins)
-    ctx.check(step <= narrow / nb * (1.0 + 1e-12), what + ":binwidth",
+    ctx.check(step <= narrow / nb * (1.0 + 1e-12) + (2 * slack / nb), what + ":binwidth",
               lambda: "bin width (max-min)/bins = (%r-%r)/%d = %r exceeds narrowest %s %r / min_bins %d = %r"
               % (mx, mn, bins, step, "window" if kind == "poly" else "pixel", narrow, nb, narrow / nb))
     return cells
 
 
-def uneven(cells):
+def width_class(cells):
     w = [hi - lo for lo, hi in cells]
-    return len(w) >= 2 and max(w) > 1.01 * min(w)
+    if len(w) < 2 or max(w) <= min(w) * (1.0 + 1e-12):
+        return "even"
+    return "almost" if max(w) <= 1.001 * min(w) else "uneven"
+
+
+def arrangement_labels(kind, p):
+    """classes of the layout, computed from the data (not from the generator's intent)"""
+    out = set()
+    if kind == "poly":
+        spans = [spec_window(s, p["filters"]) for s in p["filters"]]
+        for k in range(1, len(spans)):
+            if spans[k][0] < min(s[0] for s in spans[:k]) and spans[k][1] > max(s[1] for s in spans[:k]):
+                out.add("arr:enclosing-later")
+        return sorted(out)
+    if kind == "czerny":
+        acc = p["acc"]
+        for i in range(len(acc)):
+            for j in range(len(acc)):
+                if i != j and list(acc[i]) == list(acc[j]):
+                    out.add("arr:duplicate")
+                elif i != j and acc[i][0] >= acc[j][0] and acc[i][1] * 2 <= acc[j][1] and acc[i][0] - acc[j][0] < 0.02:
+                    out.add("arr:nested")
+        if any(acc[i][0] > acc[i + 1][0] for i in range(len(acc) - 1)):
+            out.add("arr:descending")
+        return sorted(out)
+    e = p["w2p"]
+    for i in range(len(e)):
+        for j in range(len(e)):
+            if i == j:
+                continue
+            if list(e[i]) == list(e[j]):
+                out.add("arr:duplicate")
+            elif e[i][0] >= e[j][0] and e[i][-1] <= e[j][-1]:
+                out.add("arr:nested")
+            if e[i][0] == e[j][-1]:
+                out.add("arr:touching")
+    if any(e[i][0] > e[i + 1][0] for i in range(len(e) - 1)):
+        out.add("arr:descending")
+    return sorted(out)
 
 
 # ------------------------------------------------------------------------------------------------ 1. histories
@@ -345,6 +705,19 @@ def hist_params(draw):
     d = draw(instrument_params())
     d["every_step"] = draw(st.booleans())
     return d
+
+
+@st.composite
+def _w2p_arg(draw):
+    w = draw(layout())
+    return {"w2p": w, "fm": draw(w2p_forms(w))}
+
+
+_sc_form = st.sampled_from(["py", "py", "np", "alt"])
+
+
+def _with_sc(strategy_fn):
+    return lambda: st.fixed_dictionaries({"v": strategy_fn(), "sc": _sc_form})
 
 
 INVALID = {
@@ -364,32 +737,40 @@ class Hist:
     OPS = {
         "read": _read_args,
         "set_name": lambda: _names,
-        "set_min_bins": lambda: st.integers(1, 30),
-        "set_w2p": layout,
-        "set_order": lambda: _ct_order,
-        "set_grating": _ct_grating,
-        "set_focal_length": _ct_focal,
-        "set_pixel_spacing": _ct_spacing,
-        "set_angle": lambda: _ct_angle,
-        "set_acc": _ct_acc,
-        "set_filters": _filters,
+        "set_min_bins": _with_sc(lambda: st.one_of(st.integers(1, 30), st.sampled_from([1, 10]))),
+        "set_w2p": _w2p_arg,
+        "set_order": _with_sc(lambda: _ct_order),
+        "set_grating": _with_sc(_ct_grating),
+        "set_focal_length": _with_sc(_ct_focal),
+        "set_pixel_spacing": _with_sc(_ct_spacing),
+        "set_angle": _with_sc(lambda: _ct_angle),
+        "set_acc": lambda: st.fixed_dictionaries({"v": _ct_acc(), "f": _acc_form}),
+        "set_filters": lambda: st.fixed_dictionaries({"v": _filters(), "f": st.sampled_from(["list", "tuple"])}),
         "set_invalid": lambda: st.integers(0, 59),
+        "mutate_owned": lambda: st.fixed_dictionaries({"how": st.integers(0, 5), "acc": st.just(not _open(F_ACC)),
+                                                       "fil": st.just(not _open(F_FIL))}),
     }
 
     def __init__(self, ctx, params):
         self.ctx = ctx
         self.kind = params["kind"]
         self.p = {k: v for k, v in params["p"].items()}
+        self.fm = dict(params.get("fm") or {})
         self.pipes = bool(params.get("pipes", True))
         self.every = bool(params.get("every_step", True))
         self.filters = None
         self.inst = None
         self.dead = False
-        self.cached = {"spectral": False, "kwargs": False}
+        self.cached = {"spectral": False, "kwargs": False, "classes": False}
         self.exp = None
-        self.n_eff = {"spectral": 0, "kwargs": 0}
+        self.n_eff = {"spectral": 0, "kwargs": 0, "classes": 0}
         self.names = set()
+        self.reads = set()
+        self.forms = set()
+        self.owned = {}
+        self.kept = []            # (what, returned arrays, copies taken at that time)
         self.n_rejected = self.n_skipped = 0
+        self.flags = set()
 
     # -- plumbing
     def _fresh(self):
@@ -400,7 +781,8 @@ class Hist:
         f = self._fresh()
         with self.ctx.cut("fresh:settings"):
             return {"spectral": [read_one(f, self.kind, w, None) for w in SPECTRAL],
-                    "kwargs": read_one(f, self.kind, "pipeline_kwargs", None)}
+                    "kwargs": read_one(f, self.kind, "pipeline_kwargs", None),
+                    "classes": len(self.filters) if self.kind == "poly" else 1}
 
     def _ensure(self):
         """Construction is done lazily inside the first step (a Violation raised from __init__ would lose the case)."""
@@ -408,12 +790,21 @@ class Hist:
             return
         with self.ctx.cut("construct"):
             if self.kind == "poly":
-                self.filters = [build_filter(s) for s in self.p["filters"]]
-            self.inst = build(self.kind, self.p, self.filters)
+                self.filters = build_filters(self.p["filters"])
+            self.inst, self.owned = build_formed(self.kind, self.p, self.fm, self.filters)
+        self.forms.update(form_labels(self.kind, self.fm))
+        self._owned_check()
         self.exp = self._expected()
+
+    def _owned_check(self):
+        if self.owned:
+            owned_intact(self.ctx, self.owned, self.p, self.filters, self.kind + ":caller-data")
+            self.flags.add("owned:intact")
 
     def close(self):
         self.inst = self.filters = None
+        self.kept = []
+        self.owned = {}
 
     def _hist(self):
         return "[history: setters %s; current parameters %s]" % (sorted(self.names), _show(self.p))
@@ -434,10 +825,24 @@ class Hist:
                 want = read_one(fresh, kind, w, aux)
             ctx.check(same(got, want), "%s:%s" % (kind, w),
                       lambda: "%s is %s, a freshly constructed instrument gives %s %s" % (w, _show(got), _show(want), self._hist()))
+            self.reads.add(w)
             if w in SPECTRAL or w == "calibrate":
                 self.cached["spectral"] = True
             if w in ("pipeline_kwargs", "create_pipelines"):
                 self.cached["kwargs"] = True
+            if w in ("pipeline_classes", "create_pipelines"):
+                self.cached["classes"] = True
+            if w in ("wavelengths", "wavelength_to_pixel", "calibrate") and len(self.kept) < 6:
+                with ctx.cut("read:" + w):      # the objects the instrument hands out, kept like a caller would
+                    ret = list(self.inst.calibrate(aux)) if w == "calibrate" else list(getattr(self.inst, w))
+                self.kept.append((w, ret, [np.array(a, dtype=float, copy=True) for a in ret]))
+
+    def _kept_check(self):
+        for w, ret, copies in self.kept:
+            self.ctx.check(len(ret) == len(copies) and all(same(np.asarray(a), c) for a, c in zip(ret, copies)), self.kind + ":kept:" + w,
+                           lambda: "arrays returned earlier by %s were modified by later operations %s" % (w, self._hist()))
+        if self.kept:
+            self.flags.add("kept:intact")
 
     def _full(self):
         self._read([w for w in READS_ALL], 12345)
@@ -454,11 +859,17 @@ class Hist:
         ctx = self.ctx
         if not self.dead:
             self._full()
+            self._kept_check()
+            self._owned_check()
         ctx.label("kind:" + self.kind, "mode:every_step" if self.every else "mode:sparse")
         if self.kind == "czerny" and not self.pipes:
             ctx.label("excluded_known")
         for n in sorted(self.names):
             ctx.label("set:%s.%s" % (self.kind, n))
+        for w in sorted(self.reads):
+            ctx.label("read:" + w)
+        for f in sorted(self.forms | self.flags):
+            ctx.label(f)
         for k, n in self.n_eff.items():
             if n:
                 ctx.label("nt:" + k)
@@ -471,7 +882,7 @@ class Hist:
         ctx.nt(sum(self.n_eff.values()) >= 1)
 
     # -- setters
-    def _set(self, attr, key, value, arg_for_setter=None):
+    def _set(self, attr, key, value, arg_for_setter=None, owned=None):
         """setattr(inst, attr, value) on the real object, p[key] = value in the model, then bookkeeping for the RULE."""
         self._ensure()
         if self.dead:
@@ -480,8 +891,11 @@ class Hist:
             setattr(self.inst, attr, value if arg_for_setter is None else arg_for_setter)
         self.p[key] = value
         self.names.add(attr)
+        if owned is not None:
+            self.owned = owned
+            self._owned_check()
         new = self._expected()
-        for k in ("spectral", "kwargs"):
+        for k in ("spectral", "kwargs", "classes"):
             if not same(new[k], self.exp[k]):
                 if self.cached[k]:
                     self.n_eff[k] += 1
@@ -496,30 +910,50 @@ class Hist:
     def do_set_name(self, arg):
         self._set("name", "name", arg)
 
+    @staticmethod
+    def _vs(arg):
+        return (arg["v"], arg.get("sc", "py")) if isinstance(arg, dict) else (arg, "py")
+
     def do_set_min_bins(self, arg):
+        v, sc = self._vs(arg)
+        self.forms.add("form:sc:" + sc)
         if self.kind == "poly":
-            self._set("min_bins_per_window", "mbw", int(arg))
+            self._set("min_bins_per_window", "mbw", int(v), arg_for_setter=sc_int(int(v), sc))
         else:
-            self._set("min_bins_per_pixel", "mbpp", 1 + (int(arg) - 1) % 8)
+            v = 1 + (int(v) - 1) % 8
+            self._set("min_bins_per_pixel", "mbpp", v, arg_for_setter=sc_int(v, sc))
 
     def pre_set_w2p(self):
         return self.kind == "spectrometer"
 
     def do_set_w2p(self, arg):
-        w2p = [list(e) for e in arg]
-        self._set("wavelength_to_pixel", "w2p", w2p, arg_for_setter=tuple(list(e) for e in w2p))
+        if isinstance(arg, dict):
+            w2p, fm = [list(e) for e in arg["w2p"]], arg.get("fm") or {}
+        else:
+            w2p, fm = [list(e) for e in arg], {}
+        formed = formed_w2p(w2p, fm)
+        self.forms.update(["form:arr:" + f for f in fm.get("arr", [])] + ["form:outer:" + fm.get("outer", "tuple")])
+        self._set("wavelength_to_pixel", "w2p", w2p, arg_for_setter=formed, owned={"w2p": formed})
 
-    def _set_ct(self, attr, key, value):
+    def _set_ct(self, attr, key, arg):
         self._ensure()
+        f = sc = None
+        if key == "acc":
+            value, f = (arg["v"], arg.get("f", "tuple")) if isinstance(arg, dict) else (arg, "tuple")
+        else:
+            value, sc = self._vs(arg)
         trial = dict(self.p)
         trial[key] = value
         if not ct_valid(trial):
             self.n_skipped += 1
             return
         if key == "acc":
-            self._set(attr, key, [list(x) for x in value], arg_for_setter=_acc(value))
+            formed = formed_acc(value, f)
+            self.forms.add("form:acc:" + f)
+            self._set(attr, key, [list(x) for x in value], arg_for_setter=formed, owned={"acc": formed})
         else:
-            self._set(attr, key, value)
+            self.forms.add("form:sc:" + sc)
+            self._set(attr, key, value, arg_for_setter=sc_int(value, sc) if key == "order" else sc_float(value, sc))
 
     def pre_set_filters(self):
         return self.kind == "poly"
@@ -528,10 +962,13 @@ class Hist:
         self._ensure()
         if self.dead:
             return
+        specs, f = (arg["v"], arg.get("f", "list")) if isinstance(arg, dict) else (arg, "list")
         with self.ctx.cut("construct-filter"):
-            new = [build_filter(s) for s in arg]
+            new = build_filters(specs)
         self.filters = new
-        self._set("filters", "filters", [dict(s) for s in arg], arg_for_setter=list(new))
+        formed = list(new) if f == "list" else tuple(new)
+        self.forms.add("form:filters:" + f)
+        self._set("filters", "filters", [dict(s) for s in specs], arg_for_setter=formed, owned={"filters": formed})
 
     def do_set_invalid(self, arg):
         self._ensure()
@@ -547,6 +984,56 @@ class Hist:
             self._read([w for w in READS_ALL], 777)
             return
         self.dead = True     # invalid value accepted: no "final parameters" are defined, nothing more is claimed
+
+    def do_mutate_owned(self, arg):
+        """The caller modifies, in place, the container it handed to the constructor / last setter. This is not a
+        parameter change: the instrument must keep reporting the parameters it was given."""
+        self._ensure()
+        if self.dead or not self.owned:
+            return
+        how = int(arg["how"])
+        done = None
+        if "w2p" in self.owned:
+            w = self.owned["w2p"]
+            for a in w:
+                if isinstance(a, np.ndarray):
+                    a += 1
+                    done = "w2p"
+                elif isinstance(a, list):
+                    a[how % len(a)] = a[0] - 5.0
+                    done = "w2p"
+            if isinstance(w, list):
+                w.append([100.0, 101.0])
+                done = "w2p"
+        elif "acc" in self.owned:
+            a = self.owned["acc"]
+            if not arg.get("acc", True):
+                self.flags.add("excluded_known")
+            elif isinstance(a, list):
+                if how % 2:
+                    a.append([350.0, 3])
+                else:
+                    a[0][1] = int(a[0][1]) + 2
+                done = "acc"
+            elif isinstance(a, np.ndarray):
+                a[0, 1] += 2.0
+                done = "acc"
+        elif "filters" in self.owned:
+            f = self.owned["filters"]
+            if not arg.get("fil", True):
+                self.flags.add("excluded_known")
+            elif isinstance(f, list):
+                if how % 2 and len(f) > 1:
+                    f.pop()
+                else:
+                    with self.ctx.cut("construct-filter"):
+                        f.append(TrapezoidalFilter(250.0 + how, 2.0, None, "late"))
+                done = "filters"
+        self.owned = {}
+        if done:
+            self.flags.add("owned:mutated:" + done)
+            self.names.add("(caller modified its %s container)" % done)
+            self._read([w for w in READS_ALL if w != "calibrate"], 5)
 
 
 def _install_ct():
@@ -568,15 +1055,45 @@ def ineq_strategy(draw):
     return d
 
 
+def filter_props(f, xs):
+    out = [f.name, float(f.min_wavelength), float(f.max_wavelength), float(f.window), float(f.central_wavelength)]
+    if isinstance(f, TrapezoidalFilter):
+        out.append(float(f.flat_top))
+    return out + [float(f(x)) for x in xs]
+
+
 def run_ineq(case, ctx):
-    kind, p, pipes = case["kind"], case["p"], bool(case.get("pipes", True))
-    ctx.label("kind:" + kind)
+    kind, p, pipes, fm = case["kind"], case["p"], bool(case.get("pipes", True)), case.get("fm") or {}
+    ctx.label("kind:" + kind, *form_labels(kind, fm))
+    ctx.label(*arrangement_labels(kind, p))
+    if p.get("preset"):
+        ctx.label("preset:" + p["preset"])
     filters = None
     with ctx.cut("construct"):
         if kind == "poly":
-            filters = [build_filter(s) for s in p["filters"]]
-        a = build(kind, p, filters)
+            filters = build_filters(p["filters"])
+        a, owned = build_formed(kind, p, fm, filters)
         b = build(kind, p, filters)
+    owned_intact(ctx, owned, p, filters, kind + ":caller-data")
+    if kind == "poly":      # filters built in the drawn form against canonically built ones; every filter accessor
+        with ctx.cut("construct-filter"):
+            canon = build_filters(p["filters"], canonical=True)
+        for f, g, s in zip(filters, canon, p["filters"]):
+            if s["t"] == "same":
+                ctx.label("filter:same")
+                continue
+            lo, hi = spec_window(s, p["filters"])
+            xs = [lo - 1.0, lo + 0.25 * (hi - lo), 0.5 * (lo + hi), lo + 0.9 * (hi - lo), hi + 1.0]
+            with ctx.cut("filter"):
+                x, y = filter_props(f, xs), filter_props(g, xs)
+            ctx.check(same(x, y), "filter:form", lambda: "filter built as %s reports %s, built canonically %s" % (_show(s), _show(x), _show(y)))
+            ctx.check(x[0] == str(s["name"]), "filter:name", lambda: "filter name %r, given %r" % (x[0], s["name"]))
+            tol = 2.0 * float(np.spacing(hi)) if s["t"] == "trap" else 0.0
+            ctx.check(abs(x[1] - lo) <= tol and abs(x[2] - hi) <= tol, "filter:window",
+                      lambda: "filter reports the window [%r, %r], specified [%r, %r] (%s)" % (x[1], x[2], lo, hi, _show(s)))
+            ctx.label("filter:" + s["t"])
+            if s["t"] == "trap" and s["form"].get("omit") and (s["w"] == 3.0 or s["ft"] is None):
+                ctx.label("filter:trap-defaults")
     with ctx.cut("read"):
         got = {w: read_one(a, kind, w, None) for w in case["order"]}      # settings read in the drawn order
     cells = check_ineq(ctx, a, kind, p, filters, kind)
@@ -585,13 +1102,16 @@ def run_ineq(case, ctx):
             continue
         with ctx.cut("read:" + w):
             x, y = read_one(a, kind, w, None), read_one(b, kind, w, None)
-        ctx.check(same(x, y), kind + ":" + w, lambda: "two instruments built from the same parameters differ in %s: %s / %s" % (w, _show(x), _show(y)))
+        ctx.check(same(x, y), kind + ":" + w, lambda: "instrument built with arguments in the form %s differs from the canonically "
+                                                   "built one in %s: %s / %s" % (fm, w, _show(x), _show(y)))
         if w in got:
             ctx.check(same(got[w], x), kind + ":order:" + w, lambda: "%s depends on the order of reading: %s / %s" % (w, _show(got[w]), _show(x)))
+    owned_intact(ctx, owned, p, filters, kind + ":caller-data")
     if kind == "czerny" and not pipes:
         ctx.label("excluded_known")
-    ctx.label("uneven" if uneven(cells) else "even")
-    ctx.nt(uneven(cells))
+    wc = width_class(cells)
+    ctx.label("widths:" + wc)
+    ctx.nt(wc != "even")
 
 
 # ------------------------------------------------------------------------------------------------ 3. calibration
@@ -606,20 +1126,23 @@ def calib_strategy(draw):
         lay = {"kind": "edges", "w2p": w2p, "mbpp": mbpp}
         narrow = min(b - a for e in w2p for a, b in zip(e[:-1], e[1:]))
         est = (max(e[-1] for e in w2p) - min(e[0] for e in w2p)) / (narrow / mbpp)     # size guard only
-    rng = draw(st.sampled_from(["own", "tight", "tight", "margin", "margin"]))
+    rng = draw(st.sampled_from(["own", "tight", "tight", "margin", "margin", "pixscale", "pixscale", "centred"]))
     if rng == "own" and est > 1500:
         rng = "tight"
     bins = draw(st.one_of(st.integers(1, 6), st.integers(1, 60), st.integers(1, 300)))
-    sk = draw(st.sampled_from(["list", "rng", "rng", "spike"]))
-    if sk == "list" and rng != "own":
+    sk = draw(st.sampled_from(["list", "rng", "rng", "spike", "alt"]))
+    if sk == "list" and rng in ("tight", "margin"):
         hi = draw(_logu(1e-3, 1e6))
         samples = {"kind": "list", "values": [draw(st.floats(0.0, 1.0)) * hi for _ in range(bins)]}
     elif sk == "spike":
         samples = {"kind": "spike", "u": draw(st.floats(0.0, 0.999)), "v": draw(_logu(1e-3, 1e6)), "bg": draw(st.sampled_from([0.0, 1.0]))}
+    elif sk == "alt":
+        samples = {"kind": "alt", "hi": draw(_logu(1e-3, 1e6)), "lo": draw(st.sampled_from([0.0, 0.0, 0.5])), "phase": draw(st.integers(0, 1))}
     else:
         samples = {"kind": "rng", "seed": draw(st.integers(0, 2 ** 31 - 1)), "hi": draw(_logu(1e-3, 1e6))}
     return {"layout": lay, "range": rng, "lo_m": draw(_logu(1e-3, 50.0)), "hi_m": draw(_logu(1e-3, 50.0)), "bins": bins,
-            "samples": samples, "const": draw(_logu(1e-6, 1e6)), "lin_a": draw(st.floats(0.1, 10.0)), "lin_u": draw(st.floats(-0.9, 3.0))}
+            "scale": draw(st.floats(0.2, 3.0)), "samples": samples, "const": draw(_logu(1e-6, 1e6)),
+            "lin_a": draw(st.floats(0.1, 10.0)), "lin_u": draw(st.floats(-0.9, 3.0))}
 
 
 class PiecewiseLinear:
@@ -673,10 +1196,14 @@ def make_samples(spec, n):
         v = np.full(n, float(spec["bg"]))
         v[min(n - 1, int(spec["u"] * n))] = spec["v"]
         return v
+    if k == "alt":
+        v = np.full(n, float(spec["lo"]) * spec["hi"])
+        v[int(spec["phase"]) % 2::2] = spec["hi"]
+        return v
     return np.random.RandomState(int(spec["seed"])).rand(n) * spec["hi"]
 
 
-def _calibrate(ctx, inst, sp, what, shapes):
+def _calibrate(ctx, inst, sp, what, shapes, raw=False):
     with ctx.cut(what):
         cal = inst.calibrate(sp)
     ctx.check(len(cal) == len(shapes), what, "calibrate returned %d arrays for %d accommodated spectra" % (len(cal), len(shapes)))
@@ -685,7 +1212,10 @@ def _calibrate(ctx, inst, sp, what, shapes):
         c = np.asarray(c, dtype=float)
         ctx.check(c.shape == (n,) and bool(np.all(np.isfinite(c))), what, lambda: "calibrated spectrum %s for %d pixels" % (_show(c), n))
         out.append(c)
-    return out
+    return (out, cal) if raw else out
+
+
+_MAXBINS = 6000
 
 
 def run_calib(case, ctx):
@@ -701,17 +1231,33 @@ def run_calib(case, ctx):
     if lay["kind"] == "edges":
         ctx.check(same(edges, [[float(x) for x in e] for e in lay["w2p"]]), "edges", "wavelength_to_pixel differs from the arrays handed in")
     lo, hi = min(e[0] for e in edges), max(e[-1] for e in edges)
+    widths = sorted(b - a for e in edges for a, b in zip(e[:-1], e[1:]))
     rng = case["range"]
+    smin, smax, bins = lo, hi, int(case["bins"])
     if rng == "own":
         with ctx.cut("settings"):
             smin, smax, bins = float(inst.min_wavelength), float(inst.max_wavelength), int(inst.spectral_bins)
         if not (1 <= bins <= 20000 and smin <= lo and smax >= hi):      # guard against absurd settings (checked in ineq)
             smin, smax, bins = lo, hi, int(case["bins"])
-    elif rng == "tight":
-        smin, smax, bins = lo, hi, int(case["bins"])
-    else:
-        smin, smax, bins = lo - case["lo_m"], hi + case["hi_m"], int(case["bins"])
+    elif rng == "margin":
+        smin, smax = lo - case["lo_m"], hi + case["hi_m"]
+    elif rng == "pixscale":             # source bins comparable to the pixels: 0.2 .. 3 median pixel widths
+        m = min(case["lo_m"], 1.0) * widths[0]
+        smin, smax = lo - m, hi + m
+        want = int(math.ceil((smax - smin) / (case.get("scale", 1.0) * widths[len(widths) // 2])))
+        bins = max(1, min(want, _MAXBINS))
+        if want > _MAXBINS:
+            ctx.label("pixscale:capped")
+    elif rng == "centred":              # sample points one first-pixel width apart, the first one on the lowest edge
+        d = edges[0][1] - edges[0][0]
+        want = int(round((hi - lo) / d)) + 1
+        if want <= _MAXBINS:
+            smin, smax, bins = lo - 0.5 * d, lo + (want - 0.5) * d, want
+            if smax < hi:
+                smax = hi
     ctx.label("range:" + rng, "spectra:%d" % len(edges), "samples:" + case["samples"]["kind"])
+    wc = width_class([(a, b) for e in edges for a, b in zip(e[:-1], e[1:])])
+    ctx.label("widths:" + wc)
     shapes = [len(e) - 1 for e in edges]
     delta = (smax - smin) / bins
 
@@ -720,10 +1266,12 @@ def run_calib(case, ctx):
         sp.samples[:] = values
         return sp
 
-    sp = spectrum(make_samples(case["samples"], bins))
+    values = make_samples(case["samples"], bins)
+    sp = spectrum(values)
     xs = [float(x) for x in sp.wavelengths]
     pl = PiecewiseLinear(xs, sp.samples)
-    cal = _calibrate(ctx, inst, sp, "calibrate", shapes)
+    cal, raw = _calibrate(ctx, inst, sp, "calibrate", shapes, raw=True)
+    first = [c.copy() for c in cal]
 
     # (a) value * width == exact integral of the spectrum over the pixel
     ints, tols = [], []
@@ -774,8 +1322,8 @@ def run_calib(case, ctx):
     if bins >= 2:
         a0 = Fraction(float(case["lin_a"]))
         slope = Fraction(float(case["lin_u"])) * a0 / (Fraction(smax) - Fraction(smin))
-        line = [a0 + slope * (Fraction(x) - Fraction(smin)) for x in xs]
-        yl = np.array([float(v) for v in line])
+        fsmin = Fraction(smin)
+        yl = np.array([float(a0 + slope * (Fraction(x) - fsmin)) for x in xs])
         m = float(np.max(np.abs(yl)))
         call = _calibrate(ctx, inst, spectrum(yl), "calibrate-linear", shapes)
         n_lin = 0
@@ -785,7 +1333,7 @@ def run_calib(case, ctx):
                 if a < xs[0] or b > xs[-1]:
                     continue
                 n_lin += 1
-                want = a0 + slope * ((Fraction(a) + Fraction(b)) / 2 - Fraction(smin))
+                want = a0 + slope * ((Fraction(a) + Fraction(b)) / 2 - fsmin)
                 nk = max(bisect.bisect_left(xs, b) - bisect.bisect_right(xs, a), 0)
                 err = abs(float(Fraction(float(call[k][i])) - want))
                 tol = 4.0 * _EPS * (nk + 17) * m
@@ -794,13 +1342,29 @@ def run_calib(case, ctx):
                                   "(|diff| %.3g > tol %.3g)" % (k, i, a, b, float(call[k][i]), float(want), err, tol))
         ctx.label("linear:checked" if n_lin else "linear:none-inside")
 
+    # (e) re-use: the arrays returned by the first call are intact after 3 more calls on the same instrument, the source
+    # spectrum was not touched, and repeating the first call reproduces the first result bit for bit
+    for k in range(len(first)):
+        ctx.check(same(np.asarray(raw[k], dtype=float), first[k]), "reuse:first-result",
+                  "the arrays returned by the first calibrate() call were modified by later calls")
+    ctx.check(same(np.asarray(sp.samples), values) and sp.min_wavelength == smin and sp.max_wavelength == smax and sp.bins == bins,
+              "reuse:spectrum", "calibrate() modified the source spectrum")
+    again = _calibrate(ctx, inst, sp, "calibrate-again", shapes)
+    ctx.check(same(again, first), "reuse:repeat", lambda: "repeating the first calibrate() call gives %s, first time %s" % (_show(again), _show(first)))
+
     # classes
     una = False
+    knot = False
+    xset = set(xs)
     for e in edges:
         f = (np.array(e) - smin) / delta
         if np.any(np.abs(f - np.round(f)) > 1e-6):
             una = True
+        if any(x in xset for x in e):
+            knot = True
     ctx.label("unaligned" if una else "aligned")
+    if knot:
+        ctx.label("knot-on-edge")
     ctx.label("pixels:%s" % ("1" if max(shapes) == 1 else "2-8" if max(shapes) <= 8 else "9+"))
     ctx.nt(una and bins >= 2)
 
